@@ -78,7 +78,6 @@ func (m *MDP) DecodeFromBytes(data []byte, df gopacket.DecodeFeedback) error {
 		case MdpTlvDeviceInfo:
 			offset += 2
 			length = int(data[offset-1])
-			m.Contents = append(m.Contents, data[offset-2:offset+length]...)
 			m.DeviceInfo = string(data[offset : offset+length])
 			offset += length
 			break
